@@ -179,7 +179,7 @@ def run(sc, res):
     a = deref_args(res)
     names = []
     for suffixes, f in SPECS:
-        if any(path.endswith(s) for s in suffixes):
+        if any(path.endswith(s) or (s.endswith("<") and s in path) for s in suffixes):
             names.append(f.__name__)
             for (st, v, ctl) in res["outs"]:
                 f(c, a, st, v)
@@ -1644,3 +1644,217 @@ def h_is_discrete(c, a, st, v):
     e = f_and(f_and(("cmp", "eq", t_len(ic_sizes(h.f["s"]))), ("cmp", "eq", t_len(ic_sizes(h.f["t"])))),
               ("cmp", "eq", inv.values_len(h.f["x"])))
     bool_iff(c, st, v, e, "is_discrete ⇔ no hyperedges (no source lists, no target lists, no labels)")
+
+
+# ------------------------------------------------------------------ remaining small operations
+
+@spec(f"<{FFN}<K> as category::traits::Arrow>::source", f"<{FFN}<K> as indexed_coproduct::arrow::HasLen<K>>::len")
+def ff_source(c, a, st, v):
+    c.eq(st, "source/len = length of the table", v.p, t_len(tab(a["self"])))
+
+
+@spec(f"<{FFN}<K> as category::traits::Arrow>::target")
+def ff_target(c, a, st, v):
+    c.eq(st, "target = declared codomain", v.p, tgt(a["self"]))
+
+
+@spec(f"{FFN}::<K>::coequalizer_universal")
+def ff_coeq_universal(c, a, st, v):
+    q, f = a["self"], a["f"]
+    if is_fail(v):
+        return
+    r = payload(v)
+    c.acc(st, "universal map exists only for matching lengths", [("eq", t_len(tab(q)), t_len(tab(f)))])
+    c.teq(st, "q ; u == f on the Some path", ("gather", tab(r), tab(q)), tab(f))
+    c.eq(st, "universal map: one value per class", t_len(tab(r)), tgt(q))
+    c.eq(st, "universal map: codomain of f", tgt(r), tgt(f))
+
+
+@spec(f"{FFN}::<K>::transpose")
+def ff_transpose(c, a, st, v):
+    x, y = a["a"].p, a["b"].p
+    if st.eq(x, 0):
+        c.eq(st, "transpose(0,b): empty", t_len(tab(v)), 0)
+        return
+    c.eq(st, "transpose(a,b): a*b entries", t_len(tab(v)), x * y)
+    c.eq(st, "transpose(a,b): permutation of a*b", tgt(v), x * y)
+
+
+@spec(f"{FFN}::<K>::cumulative_sum")
+def ff_cumulative_sum(c, a, st, v):
+    f = a["self"]
+    n = t_len(tab(f))
+    c.eq(st, "cumulative_sum: one entry per input", t_len(tab(v)), n)
+    c.eq(st, "cumulative_sum: codomain = total (documented)", tgt(v), t_sum(tab(f)))
+
+
+@spec(f"{ICN}::<K, F>::indexed_values")
+def ic_indexed_values(c, a, st, v):
+    x, m = a["self"], a["x"]
+    cond = [("eq", tgt(m), t_len(ic_sizes(x)))]
+    if is_fail(v):
+        c.rej(st, "indexed_values defined iff x lands in the segments", cond)
+        return
+    r = payload(v)
+    c.acc(st, "indexed_values defined iff x lands in the segments", cond)
+    vals = x.f["values"]
+    src = tab(vals) if vals.ty == inv.FF else vals.f["0"].t
+    got = tab(r) if r.ty == inv.FF else r.f["0"].t
+    c.teq(st, "indexed_values = values re-indexed block-wise along x", got, ("gather", src, mk_inj(st, ic_sizes(x), tab(m))))
+
+
+@spec(f"{ICN}::<K, F>::len", f"<{ICN}<K, F> as indexed_coproduct::arrow::HasLen<K>>::len")
+def ic_len(c, a, st, v):
+    c.eq(st, "len = number of segments", v.p, t_len(ic_sizes(a["self"])))
+
+
+@spec("IntoIterator for indexed_coproduct::arrow::IndexedCoproduct<")
+def ic_into_iter(c, a, st, v):
+    x = a["self"]
+    c.teq(st, "into_iter: pointers = cumulative sum of the sizes", v.f["pointers"].t, ("cumsum", ic_sizes(x)))
+    c.eq(st, "into_iter: cursor starts at 0", v.f["index"].p, 0)
+
+
+@spec("operations::Operations::<K, O, A>::len")
+def ops_len(c, a, st, v):
+    c.eq(st, "Operations::len = number of labels", v.p, inv.values_len(a["self"].f["x"]))
+
+
+@spec("operations::Operations::<K, O, A>::singleton")
+def ops_singleton(c, a, st, v):
+    c.eq(st, "singleton: one operation", inv.values_len(v.f["x"]), 1)
+    c.teq(st, "singleton: its source type", v.f["a"].f["values"].f["0"].t, a["a"].f["0"].t)
+    c.teq(st, "singleton: its target type", v.f["b"].f["values"].f["0"].t, a["b"].f["0"].t)
+
+
+@spec("semifinite::types::SemifiniteFunction::<K, T>::coproduct", "<&semifinite::types::SemifiniteFunction<K, T> as std::ops::Add<",
+      "<semifinite::types::SemifiniteFunction<K, T> as std::ops::Add>::add")
+def semi_coproduct(c, a, st, v):
+    x, y = list(a.values())[:2]
+    r = payload(v)
+    c.teq(st, "semifinite coproduct = concatenation", r.f["0"].t, mk_concat([x.f["0"].t, y.f["0"].t]))
+
+
+@spec("semifinite::types::SemifiniteFunction::<K, T>::len", "<semifinite::types::SemifiniteFunction<K, T> as indexed_coproduct::arrow::HasLen<K>>::len")
+def semi_len(c, a, st, v):
+    c.eq(st, "len = array length", v.p, t_len(a["self"].f["0"].t))
+
+
+@spec("semifinite::types::SemifiniteFunction::<K, T>::singleton")
+def semi_singleton(c, a, st, v):
+    c.eq(st, "singleton: one element", t_len(v.f["0"].t), 1)
+
+
+@spec(f"{S_H}::<K, O, A>::empty")
+def h_empty(c, a, st, v):
+    c.eq(st, "empty: no nodes", inv.values_len(v.f["w"]), 0)
+    c.eq(st, "empty: no edges", inv.values_len(v.f["x"]), 0)
+
+
+def degree_spec(c, a, st, v, leg):
+    h = a["self"]
+    want = Poly.atom(("get", ("bincount", tab(h.f[leg].f["values"]), inv.values_len(h.f["w"])), a["node"].p))
+    c.eq(st, f"degree = number of occurrences of the node in the {leg}-incidence (with multiplicity)", v.p, want)
+
+
+@spec(f"{S_H}::<K, O, A>::in_degree")
+def h_in_degree(c, a, st, v):
+    degree_spec(c, a, st, v, "t")
+
+
+@spec(f"{S_H}::<K, O, A>::out_degree")
+def h_out_degree(c, a, st, v):
+    degree_spec(c, a, st, v, "s")
+
+
+@spec(f"{S_H}::<K, O, A>::tensor_operations")
+def h_tensor_operations(c, a, st, v):
+    # the parameter is destructured in the signature: Operations { x, a, b }
+    ops = list(a.values())[0]
+    if not isinstance(ops, VRec):
+        return
+    na = inv.values_len(ops.f["a"].f["values"])
+    nb = inv.values_len(ops.f["b"].f["values"])
+    c.teq(st, "tensor_operations: sources are the first block of nodes", tab(v.f["s"].f["values"]), mk_arange(0, na))
+    c.teq(st, "tensor_operations: targets are the second block of nodes", tab(v.f["t"].f["values"]), mk_arange(na, na + nb))
+    c.teq(st, "tensor_operations: node labels = source types then target types", v.f["w"].f["0"].t,
+          mk_concat([ops.f["a"].f["values"].f["0"].t, ops.f["b"].f["values"].f["0"].t]))
+    c.teq(st, "tensor_operations: edge labels as given", v.f["x"].f["0"].t, ops.f["x"].f["0"].t)
+
+
+@spec("strict::layer::layered_operations")
+def layered_ops_spec(c, a, st, v):
+    f = a["f"]
+    nx = inv.values_len(f.f["h"].f["x"])
+    layers, flags = v.items
+    c.eq(st, "layered_operations: one flag per operation", t_len(flags.t), nx)
+
+
+@spec(f"{L_H}::empty", f"{L_OH}::empty")
+def lax_empty(c, a, st, v):
+    lax_discrete(c, st, v, EMPTY, "empty")
+    if v.ty == LOH:
+        c.eq(st, "empty: no interfaces", t_len(v.f["sources"].t) + t_len(v.f["targets"].t), 0)
+
+
+@spec(f"{L_H}::map_nodes", f"{L_OH}::map_nodes")
+def lax_map_nodes(c, a, st, v):
+    h0, h1 = hyp(a["self"]), hyp(v)
+    c.eq(st, "map_nodes: one label per node", t_len(h1.f["nodes"].t), t_len(h0.f["nodes"].t))
+    same_lax_hypergraph(c, st, h1, h0, "map_nodes", except_=("nodes",))
+
+
+@spec(f"{L_H}::map_edges", f"{L_OH}::map_edges")
+def lax_map_edges(c, a, st, v):
+    h0, h1 = hyp(a["self"]), hyp(v)
+    c.eq(st, "map_edges: one label per edge", t_len(h1.f["edges"].t), t_len(h0.f["edges"].t))
+    same_lax_hypergraph(c, st, h1, h0, "map_edges", except_=("edges",))
+
+
+@spec(f"{L_H}::delete_edges", f"{L_H}::delete_edge", f"{L_OH}::delete_edges")
+def lax_delete_edges(c, a, st, v):
+    f = a["self"]
+    p = post_self(c, st)
+    h0, h1 = hyp(f), hyp(p)
+    c.teq(st, "delete_edges: nodes untouched", h1.f["nodes"].t, h0.f["nodes"].t)
+    for i in (0, 1):
+        c.teq(st, f"delete_edges: pending unifications untouched ({i})", h1.f["quotient"].items[i].t, h0.f["quotient"].items[i].t)
+    if f.ty == LOH:
+        same_interfaces(c, st, p, f, "delete_edges")
+    c.ob("ENS", "delete_edges: never grows", "len(edges') <= len(edges)",
+         st.ge(t_len(h0.f["edges"].t), t_len(h1.f["edges"].t)) or imprecise(h1.f["edges"].t), st)
+
+
+@spec(f"{L_H}::from_strict")
+def lax_h_from_strict(c, a, st, v):
+    h = a["h"]
+    c.teq(st, "from_strict: node labels", v.f["nodes"].t, h.f["w"].f["0"].t)
+    c.teq(st, "from_strict: edge labels", v.f["edges"].t, h.f["x"].f["0"].t)
+    c.eq(st, "from_strict: no pending unifications", t_len(v.f["quotient"].items[0].t) + t_len(v.f["quotient"].items[1].t), 0)
+
+
+@spec(f"{L_H}::to_hypergraph")
+def lax_to_hypergraph(c, a, st, v):
+    h = a["self"]
+    c.teq(st, "to_hypergraph: node labels kept", v.f["w"].f["0"].t, h.f["nodes"].t)
+    c.teq(st, "to_hypergraph: edge labels kept", v.f["x"].f["0"].t, h.f["edges"].t)
+    L = h.f["adjacency"].t
+    c.teq(st, "to_hypergraph: source arities = lengths of the per-edge source lists", ic_sizes(v.f["s"]), ("lens", L, ("el", L, "sources")))
+    c.teq(st, "to_hypergraph: target arities = lengths of the per-edge target lists", ic_sizes(v.f["t"]), ("lens", L, ("el", L, "targets")))
+    c.teq(st, "to_hypergraph: source incidence = concatenated source lists", tab(v.f["s"].f["values"]), ("flat", L, ("el", L, "sources")))
+    c.teq(st, "to_hypergraph: target incidence = concatenated target lists", tab(v.f["t"].f["values"]), ("flat", L, ("el", L, "targets")))
+
+
+@spec("lax::functor::dyn_functor::Identity as lax::functor::traits::Functor<O, A, O, A>>::map_operation")
+def lax_identity_map_operation(c, a, st, v):
+    s_, t_ = a["source"].t, a["target"].t
+    h = hyp(v)
+    c.teq(st, "identity functor: operation image has the operation's source type", mk_gather(st, h.f["nodes"].t, v.f["sources"].t), s_)
+    c.teq(st, "identity functor: operation image has the operation's target type", mk_gather(st, h.f["nodes"].t, v.f["targets"].t), t_)
+    c.eq(st, "identity functor: one hyperedge", t_len(h.f["edges"].t), 1)
+
+
+@spec("DynFunctor<F, O1, A1, O2, A2> as strict::functor::traits::Functor<array::vec::vec_array::VecKind, O1, A1, O2, A2>>::map_object")
+def dyn_map_object(c, a, st, v):
+    x = a["a"].f["0"].t
+    c.eq(st, "DynFunctor::map_object: one block per label", t_len(ic_sizes(v)), t_len(x))
